@@ -136,11 +136,12 @@ type opNode struct {
 }
 
 type ackRec struct {
-	op     string
-	ack    *snapshotpb.OperatorCheckpoint
-	state  map[string]nsState // expected content for the keys this operator owns (copy at ack time)
-	timers map[timerKey]bool
-	owned  func(key string) bool
+	op       string
+	ack      *snapshotpb.OperatorCheckpoint
+	state    map[string]nsState // expected content for the keys this operator owns (copy at ack time)
+	timers   map[timerKey]bool
+	owned    func(key string) bool
+	restored bool // taken by an operator that was deployed from a checkpoint
 }
 
 type opWorld struct {
@@ -159,6 +160,7 @@ type opWorld struct {
 	keyOf      map[string]string          // event id -> subject key
 	senders    int
 	pos        []int // per sender: where the next phase starts in its stream
+	restored   bool  // the current assembly was deployed from a checkpoint
 }
 
 // --- job stub ---
@@ -201,7 +203,7 @@ func (j jobStub) OperatorCheckpointComplete(ctx context.Context, req *snapshotpb
 			c.Violate(prop+"/pre-barrier-event-missing", "checkpoint %d of operator %s was taken before event %s was applied although its sender delivered it ahead of barrier %d", req.CheckpointId, req.OperatorId, id, req.CheckpointId)
 		}
 	}
-	rec := &ackRec{op: req.OperatorId, ack: req, state: map[string]nsState{}, timers: map[timerKey]bool{}, owned: owned}
+	rec := &ackRec{op: req.OperatorId, ack: req, state: map[string]nsState{}, timers: map[timerKey]bool{}, owned: owned, restored: w.restored}
 	for k, st := range w.m.shadow {
 		if owned(k) {
 			rec.state[k] = cloneState(st)
@@ -316,6 +318,9 @@ func installOpHooks(c *sim.Ctx, disk *sim.Disk) {
 	operator.VerifTimerCacheSize = func(uint64) uint64 { return tc }
 	storage.VerifFileSystemFactory = func(location string) storage.FileSystem {
 		node := location[strings.LastIndex(location, "/")+1:]
+		if i := strings.LastIndex(node, "-"); i > 0 { // "<operator id>-<redeployment>"
+			node = node[:i]
+		}
 		return disk.FS("op-"+node, location)
 	}
 }
@@ -579,6 +584,37 @@ func bodyOp(c *sim.Ctx) {
 	if !checkAcks(phase1Ckpt, w.assembly) {
 		return
 	}
+	verified := map[*ackRec]bool{}
+	verifyNew := func() bool {
+		w.mu.Lock()
+		var all []*ackRec
+		var cids []uint64
+		for id := range w.acks {
+			cids = append(cids, id)
+		}
+		sort.Slice(cids, func(i, j int) bool { return cids[i] < cids[j] })
+		for _, id := range cids {
+			for _, a := range w.acks[id] {
+				if !verified[a] {
+					verified[a] = true
+					all = append(all, a)
+				}
+			}
+		}
+		w.mu.Unlock()
+		simrt.SetGroup("verifier")
+		for _, a := range all {
+			if !w.verifyCheckpoint(a) {
+				return false
+			}
+		}
+		return true
+	}
+	// checkpoints are verified at the end of the phase that took them: a later
+	// restore into the same directory legitimately rewrites an operator's document
+	if !verifyNew() {
+		return
+	}
 
 	// --- phase 2 (C06): rescale from the last checkpoint of phase 1 ---
 	if prop == "C06" && maxCkpt >= 2 {
@@ -630,6 +666,9 @@ func bodyOp(c *sim.Ctx) {
 			}
 		}
 		w.m.mu.Unlock()
+		w.mu.Lock()
+		w.restored = true
+		w.mu.Unlock()
 		if !deploy(ids2, jc) {
 			return
 		}
@@ -672,24 +711,11 @@ func bodyOp(c *sim.Ctx) {
 	if c.Violated() {
 		return
 	}
-	// --- content of every acknowledged checkpoint, read back independently ---
-	w.mu.Lock()
-	var all []*ackRec
-	var cids []uint64
-	for id := range w.acks {
-		cids = append(cids, id)
+	// --- content of every checkpoint acknowledged since, read back independently ---
+	if !verifyNew() {
+		return
 	}
-	sort.Slice(cids, func(i, j int) bool { return cids[i] < cids[j] })
-	for _, id := range cids {
-		all = append(all, w.acks[id]...)
-	}
-	w.mu.Unlock()
-	simrt.SetGroup("verifier")
-	for _, a := range all {
-		if !w.verifyCheckpoint(a) {
-			return
-		}
-	}
+	cids := w.acks
 	c.SetState(fmt.Sprintf("ops%d,s%d,ck%d", nOps, senders, len(cids)))
 }
 
@@ -766,6 +792,20 @@ func (w *opWorld) verifyCheckpoint(a *ackRec) bool {
 			return false
 		}
 		if int32(g) < rng.Start || int32(g) >= rng.End {
+			if a.restored {
+				// SST files are shared, not rewritten, when a checkpoint is restored
+				// into another assembly: such a table carries its previous owners'
+				// keys. They are not this operator's state (it never reads or
+				// serves them); only what it owns is compared below.
+				delete(p.state, subject)
+				for tk := range p.timers {
+					if tk.key == subject {
+						delete(p.timers, tk)
+					}
+				}
+				c.Probe("foreign-keys-in-shared-table")
+				continue
+			}
 			c.Violate(prop+"/stored-outside-range", "operator %s (range [%d,%d)) persisted key %q of key group %d", a.op, rng.Start, rng.End, subject, g)
 			return false
 		}
